@@ -14,6 +14,7 @@ def run(prog, rep, tier):
                   "and yield nothing, and makes a predicate word answer `fail`.")
     rep.not_decided = "what the words compute (string and sequence algebra, embedded NUL, needles longer than haystacks, radix conversion)."
     apply(rep, "P1", "results are numbered from a zero-initialised counter", r_core.p1(prog), 18)
+    apply(rep, "P1c", "computed results are fresh values; only shuffling words re-push operands", r_core.p1c(prog), 15)
     apply(rep, "P2", "stack mutators maintain the type profile", r_core.p2(prog), 5)
     apply(rep, "P2b", "profile == types of the top W values after every push/pop/drop (abstract evaluation)", r_core.p2b(prog, tier), 2)
     apply(rep, "P3", "unsupported operand: diagnostic and no result", r_core.p3(prog), 3)
